@@ -567,10 +567,10 @@ func runC11(c *Ctx) {
 				continue
 			}
 			t := tb.Of(e.Results[0], e.Instr)
-			want := "call<github.com/iotaledger/iota.go/trinary.TrailingZeros>(ext#0(call<*>(obj(call<github.com/iotaledger/iota.go/curl.NewCurlP81>, call<*>(self, slice(obj(alloc<[243]int8>, call<github.com/iotaledger/iota.go/encoding/b1t6.Encode>(slice(self, 0, 243), p0), call<*>(slice(slice(self, 0, 243), call<github.com/iotaledger/iota.go/encoding/b1t6.Encode>(_, p0), none), p1)), 0, 243))), 243)))"
+			want := "call<github.com/iotaledger/iota.go/trinary.TrailingZeros>(ext#0(call<*>(obj(call<github.com/iotaledger/iota.go/curl.NewCurlP81>, call<*>(self, slice(obj(alloc<[243]int8>, call<github.com/iotaledger/iota.go/encoding/b1t6.Encode>(slice(self, 0, 243), p0), call<*>(slice(slice(self, 0, 243), call<github.com/iotaledger/iota.go/encoding/b1t6.Encode>(_, p0), none), alt(p1, slice(p1, 0, 8)))), 0, 243))), 243)))"
 			_, ok := ana.Match(want, t)
 			var enc2 *ssa.Function
-			w, _ := ana.Find("call<*>(slice(slice(self, 0, 243), _, none), p1)", t)
+			w, _ := ana.Find("call<*>(slice(slice(self, 0, 243), _, none), alt(p1, slice(p1, 0, 8)))", t)
 			if w != nil {
 				enc2 = calleeOf(w)
 			}
